@@ -923,3 +923,14 @@ func mentions(v ssa.Value, pred func(ssa.Value) bool, depth int) bool {
 	}
 	return rec(v, depth)
 }
+
+// orderedBlocks returns the blocks of a set in the function's block order (deterministic iteration).
+func orderedBlocks(fn *ssa.Function, set map[*ssa.BasicBlock]bool) []*ssa.BasicBlock {
+	var out []*ssa.BasicBlock
+	for _, b := range fn.Blocks {
+		if set[b] {
+			out = append(out, b)
+		}
+	}
+	return out
+}
